@@ -82,11 +82,11 @@ func (s *Server) patchHandlerFunc(w http.ResponseWriter, r *http.Request) {
 	w.Header().Set("Content-Type", "application/dash-patch+xml")
 	w.Header().Set("Expires", expiration.Format(http.TimeFormat))
 	w.Header().Set("Content-Length", strconv.Itoa(len(b)))
+	w.WriteHeader(http.StatusOK)
 	_, err = w.Write(b)
 	if err != nil {
 		slog.Error("Write", "err", err)
 	}
-	w.WriteHeader(http.StatusOK)
 }
 
 func mpdPathFromPatchPath(patchPath string) string {
